@@ -323,6 +323,14 @@ type evolution map[string]map[string][]string // file -> function -> diff lines
 
 // reconstructBase reverse-applies the shipped diffs.
 func (c *Ctx) reconstructBase(r *report.Result) map[string]string {
+	b, _ := c.reconstructBaseStale(r)
+	return b
+}
+
+// reconstructBaseStale also reports for which files the recorded patch is
+// not current (some hunk had to be located by context, or could not be).
+func (c *Ctx) reconstructBaseStale(r *report.Result) (map[string]string, map[string]bool) {
+	staleFiles := map[string]bool{}
 	base := map[string]string{}
 	for _, f := range []string{"print.go", "format.go"} {
 		path := filepath.Join(c.P.Dir, "internal/rfmt", f)
@@ -340,11 +348,18 @@ func (c *Ctx) reconstructBase(r *report.Result) map[string]string {
 		}
 		orig, stale, err := reverseApply(string(cur), hs)
 		if err != nil {
-			r.Fail(construct, "internal/rfmt/"+f, "the file is not the import base plus its recorded patch: "+err.Error(), nil, "")
+			// The recorded patch is documentation (refresh.sh writes it); a
+			// stale one is not a violation of C04. Whether the fork still is
+			// fmt plus instrumentation is decided by C04.a3 (ii), which does
+			// not use the patch.
+			staleFiles[f] = true
+			r.Note(f + ".diff is stale and the import base cannot be reconstructed from it (" + err.Error() + "); this file is decided by the direct comparison of C04.a3 with the reference fmt")
+			r.Ok(f + ": recorded patch stale, import base not reconstructed")
 			continue
 		}
 		for _, st := range stale {
-			r.Note(f + ".diff is stale, " + st + " (documentation only: the comparison below does not depend on it)")
+			staleFiles[f] = true
+			r.Note(f + ".diff is stale, " + st + " (documentation only)")
 		}
 		r.Ok(fmt.Sprintf("%s: %d hunks undone (%d located by context)", f, len(hs), len(stale)))
 		base[f] = orig
@@ -355,7 +370,7 @@ func (c *Ctx) reconstructBase(r *report.Result) map[string]string {
 	} else {
 		r.Fail("internal/rfmt/fmtsort/sort.go / import base", "internal/rfmt/fmtsort/sort.go", "cannot read the file", nil, "")
 	}
-	return base
+	return base, staleFiles
 }
 
 // only, when non-nil, restricts the comparison to the functions it accepts.
@@ -492,7 +507,11 @@ func equalStrings(a, b []string) bool {
 
 func ruleC04a(c *Ctx) []*report.Result {
 	r := report.NewResult("C04.a", "print.go and format.go are exactly the import base plus the recorded patch (reverse-applying the shipped .diff succeeds with no fuzz), fmtsort/sort.go is imported verbatim, and every function of the (reconstructed) import base equals the function of the same name in the standard library's fmt (reference sources under checker/oracle), textually after dropping comments and trivial renamings, or differs from it exactly by the recorded upstream evolution of that function", 60)
-	base := c.reconstructBase(r)
+	base, stale := c.reconstructBaseStale(r)
+	for f := range stale {
+		delete(base, f) // decided by C04.a3 (ii), which does not use the recorded patch
+		r.Floor -= map[string]int{"print.go": 40, "format.go": 22}[f]
+	}
 	c.compareWithReference(r, base, nil)
 	r.Analysed = fmt.Sprintf("references: %s", c.oracleDir())
 	return []*report.Result{r}
@@ -510,9 +529,28 @@ var directiveParser = map[string]bool{
 func ruleC14p(c *Ctx) []*report.Result {
 	r := report.NewResult("C14.p", "the directive parser of the fork (doPrintf's flag/width/precision scanning, parsenum, intFromArg, argNumber, parseArgNumber, tooLarge, clearflags, init and the Flag/Width/Precision accessors) is, in the import base, the standard library's (Engine C restricted to these functions): a directive rebuilt by MakeFormat is parsed back into the state it was built from, by the library's own printer as by fmt's", 9)
 	tmp := report.NewResult("x", "", 0)
-	base := c.reconstructBase(tmp)
+	base, stale := c.reconstructBaseStale(tmp)
 	for _, f := range tmp.Findings {
 		r.Fail(f.Construct, f.Pos, f.Msg, nil, "")
+	}
+	if stale["print.go"] {
+		// the recorded patch is not current: compare the fork's functions,
+		// instrumentation erased, with the reference directly
+		cur, err := os.ReadFile(filepath.Join(c.P.Dir, "internal/rfmt/print.go"))
+		a := &auditor{own: ownNames(filepath.Join(c.P.Dir, "internal/rfmt"))}
+		fork, err2 := a.auditFuncs("print.go", string(cur), "fork")
+		if err != nil || err2 != nil {
+			r.Undecide("cannot parse print.go")
+			return []*report.Result{r}
+		}
+		sub := map[string][]string{}
+		for k, v := range fork {
+			if directiveParser[k] {
+				sub[k] = v
+			}
+		}
+		c.auditAgainstReference(r, a, "print.go", sub, nil, func(k string) bool { return directiveParser[k] })
+		delete(base, "print.go")
 	}
 	c.compareWithReference(r, base, nil, func(k string) bool { return directiveParser[k] })
 	r.Analysed = fmt.Sprintf("references: %s", c.oracleDir())
@@ -552,6 +590,28 @@ func GenEvolution(c *Ctx) error {
 			n += len(m)
 		}
 		fmt.Printf("%s: %d functions differ from the import base\n", filepath.Base(rd), n)
+	}
+	// the same table in the audit's normal form (erased, primitives mapped),
+	// from the reconstructed import base: what the fork must reduce to
+	genM := map[string]mappedEvolution{}
+	for _, f := range []string{"print.go", "format.go"} {
+		a := &auditor{}
+		orig, err := a.auditFuncs(f, base[f], "base")
+		if err != nil {
+			return err
+		}
+		c.auditAgainstReference(nil, a, f, orig, genM)
+	}
+	for name, m := range genM {
+		b, _ := json.MarshalIndent(m, "", " ")
+		if err := os.WriteFile(filepath.Join(c.oracleDir(), name, "evolution_mapped.json"), b, 0o644); err != nil {
+			return err
+		}
+		n := 0
+		for _, x := range m {
+			n += len(x)
+		}
+		fmt.Printf("%s: %d functions differ in the audit normal form\n", name, n)
 	}
 	return nil
 }
